@@ -335,6 +335,11 @@ def check_c08(case, obs):
     T = Trace(case, obs)
     k = T.kind
     out = []
+    # conservation: every element in exactly one window / partition, in order (for the unique variant: the window is
+    # keep-first / keep-last over what arrived since the previous window) - the same clauses C02 states for these nodes
+    if k in ("timed_window", "timed_window_unique", "partition"):
+        for (_, sig, msg) in check_c02(case, obs):
+            out.append(("C08", sig.replace("C02/", "C08/conserve/"), msg))
     if k in ("timed_window", "timed_window_unique"):
         I = T.sp["interval"]
         # deadline: an element arriving at t leaves by t + interval + time the node was blocked by its consumer
